@@ -11,7 +11,8 @@ LEVEL_TEXT = ("Explicit TLA+ reference model checked by TLC (type invariant, lis
               "recency and bindings independent); all of its transitions within the bounds replayed on the real object, "
               "comparing every result and the projected state (bindings via Lookup, recency order via eviction of a "
               "decoded copy, and of the object itself at the end of each history).")
-LEVEL_NOTE = ("Bounded: 0..3 ways x 2 keys (quick), 0..4 ways x 3 keys (thorough). Rebinds whose old key is bound to a "
+LEVEL_NOTE = ("Bounded: 0..3 ways x 2 keys (quick), 0..4 ways x 3 keys (thorough); with snapshots 2 ways x 2 keys "
+              "(quick), additionally 0..3 ways x 1 key (thorough), one outstanding snapshot. Rebinds whose old key is bound to a "
               "different way are caller misuse the statement is silent about and are not generated. Way indices out of "
               "range are not generated.")
 
@@ -28,15 +29,27 @@ def run(ck):
     cfg = "LRUSet_q.cfg" if ck.tier == "quick" else "LRUSet_t.cfg"
     g, r = objcheck.graph_from_tlc(ck, ["container"], "LRUSet", cfg, workers=4 if ck.tier == "quick" else 8,
                                    timeout=300 if ck.tier == "quick" else 900)
+    # the same specification with snapshots (save ... rollback into the live set / decode into another used
+    # set); the saved contents are part of the state, hence smaller bounds
+    gss = []
+    for scfg in (["LRUSet_snap_q.cfg"] if ck.tier == "quick" else ["LRUSet_snap_q.cfg", "LRUSet_snap_t.cfg"]):
+        gs, _ = objcheck.graph_from_tlc(ck, ["container"], "LRUSet", scfg, workers=4 if ck.tier == "quick" else 8,
+                                        timeout=300 if ck.tier == "quick" else 900)
+        if not any(a["op"] == "rollback" for _, a, _ in gs.edges) or not any(a["op"] == "load_into_used" for _, a, _ in gs.edges):
+            raise core.Broken("no rollback / load_into_used behaviours emitted by LRUSet/%s" % scfg)
+        gss.append(gs)
     ck.cov["exhaustive"] = True
     ck.cov["rule"] = ("TLC enumerates the complete state graph of LRUSet.tla (way counts MinWays..MaxWays, NKeys keys; lookup, "
                       "rebind (UpdateKey, old key = none or a key of that way), remove, evict (also on an empty list), visit "
-                      "(also of evicted ways), JSON round trip); every transition is replayed on lruset.Set with the result "
+                      "(also of evicted ways), JSON round trip), and of the same specification with snapshots on smaller bounds (save; "
+                      "keep operating; rollback = decode the snapshot into the same live set; load_into_used = decode it into another "
+                      "set that has been visited, evicted from and bound differently); every transition is replayed on lruset.Set with the result "
                       "and the projected state compared after each step, then seeded random walks; each history ends with "
                       "draining the real object by evictions; the whole set is replayed a second time with a JSON round "
                       "trip (object replaced by the decoded one) after every operation. Non-trivial = distinct history "
                       "containing an eviction from an empty list, a visit of an evicted way, a rebind that moves or "
-                      "overwrites a binding, a remove of a bound key, or a JSON round trip.")
+                      "overwrites a binding, a remove of a bound key, a JSON round trip, or a restore of a snapshot that differs from the "
+                      "current contents.")
     ck.assumptions += ["keys are lruset.KeyString(k, k*0x1000); the 'no previous key' argument is the empty string",
                        "the way returned together with a lookup miss / failed eviction is not compared (statement silent)",
                        "the recency order is observed through Evict (on a decoded copy during a history, on the object "
@@ -44,14 +57,20 @@ def run(ck):
 
     walks, wl = (150, 60) if ck.tier == "quick" else (2000, 150)
     hs = g.edge_cover(rng=ck.rng)
+    for gs in gss:
+        hs += gs.edge_cover(rng=ck.rng)
     n_cover = len(hs)
     hs += g.random_walks(ck.rng, walks, wl)
+    for gs in gss:
+        hs += gs.random_walks(ck.rng, walks // 2, wl)
 
     def nontrivial(h):
         cur = h["init"]
         for s in h["steps"]:
             a = s["a"]
             if a["op"] == "jsonrt":
+                return True
+            if a["op"] in ("rollback", "load_into_used") and (cur["rec"] != cur["snap"]["rec"] or cur["bind"] != cur["snap"]["bind"]):
                 return True
             if a["op"] == "evict" and not a["res"]["ok"]:
                 return True
@@ -74,7 +93,9 @@ def run(ck):
     for h in hs[:2] + hs[n_cover:n_cover + 1]:
         ck.sample({"init": h["init"], "ops": [s["a"] for s in h["steps"]][:12]})
 
-    hs = [_with_drain(h) for h in hs]
+    def slim(x):      # the driver observes the set only: the snapshot component of the states stays here
+        return {k: v for k, v in x.items() if k != "snap"}
+    hs = [_with_drain({"init": slim(h["init"]), "steps": [{"a": st["a"], "t": slim(st["t"])} for st in h["steps"]]}) for h in hs]
     binary = ck.binary("vmcontainers")
 
     def keyfn(m, mode):
